@@ -163,12 +163,17 @@ def event(a, cid, mid, ids, flavour, full=True, dtype=None):
         try:
             if len(g) and len(f):
                 g2, f2 = np.sort(np.append(g[1:], g[-1])), np.sort(np.append(f[1:], f[0]))
+                if g.dtype.kind != "f":
+                    # the object was built from compact 0/1 scores; the setters now get genuine float scores
+                    g2 = np.sort(np.array([0.25, 0.5, 0.75, 1.0][: max(1, len(g) % 5)]))
+                    f2 = np.sort(np.array([0.0, 0.125, 0.5][: max(1, len(f) % 4)]))
                 F.genuines, F.frauds = g2, f2
-                S.pos, S.neg = g2.copy(), f2.copy()
+                S.pos, S.neg = np.array(g2, copy=True), np.array(f2, copy=True)
                 q2 = queries(F, S, t2s, ths, full=False)
                 same = all(q2[k + "_f"] == q2[k + "_s"] for k in ("exc", "cm", "rates", "thr")) and q2["bitwise_identical"]
                 e["queries"]["bitwise_identical"] = bool(e["queries"]["bitwise_identical"] and same
-                                                         and np.array_equal(F.genuines, F.pos) and np.array_equal(F.frauds, F.neg))
+                                                         and np.array_equal(F.genuines, F.pos) and np.array_equal(F.frauds, F.neg)
+                                                         and np.array_equal(np.asarray(F.pos, dtype=float), np.asarray(g2, dtype=float)))
         except Exception:  # noqa
             e["queries"]["bitwise_identical"] = False
     return e
@@ -240,6 +245,27 @@ def run(ctx: core.Ctx):
                 e["exc"] = type(ex).__name__
         nan_evs.append(e)
     evs += nan_evs
+    # from_labels: a genuine_label that no label equals (also of another type) makes every sample a fraud
+    mm_evs = []
+    for k, (labels_, gl) in enumerate([(np.array([1, 0, 1, 2]), None), (np.array([1, 0, 1, 2]), 1.5), (np.array([1, 0, 1, 2]), "1"),
+                                       (np.array([True, False, True, True]), 2), (np.array(["g", "f", "g", "f"]), "genuine"),
+                                       (np.array(["g", "f", "g", "f"]), 0), (np.array([1, 0, 1, 2]), 1), (np.array([1.0, 0.0, 1.0, 2.0]), 1),
+                                       (np.array([True, False, True, True]), 1), (np.array(["g", "f", "g", "f"]), np.str_("g"))]):
+        sc_ = np.array([0.25, 0.5, 0.75, 1.0])
+        want = [int(i) for i in range(4) if bool(labels_[i] == gl) is True] if not isinstance(labels_[0] == gl, np.ndarray) else []
+        e = {"id": next(ids), "cid": 0, "op": "from_labels_split", "exc": "", "k": k, "want_genuine": want,
+             "genuine": [], "fraud": []}
+        with warnings.catch_warnings():
+            warnings.simplefilter("ignore")
+            try:
+                F_ = _F.from_labels(labels_, sc_, genuine_label=gl)
+                back_ = {0.25: 0, 0.5: 1, 0.75: 2, 1.0: 3}
+                e["genuine"] = sorted(back_[float(x)] for x in F_.genuines)
+                e["fraud"] = sorted(back_[float(x)] for x in F_.frauds)
+            except Exception as ex:  # noqa
+                e["exc"] = f"{type(ex).__name__}: {ex}"[:120]
+        mm_evs.append(e)
+    evs += mm_evs
     from score_analysis.applications.doc_fraud import binary_to_doc_label, doc_to_binary_label
     lab = {"id": next(ids), "cid": 0, "op": "labels", "exc": "",
            "d2b": {d: doc_to_binary_label(d).value for d in ("genuine", "fraud")},
